@@ -170,6 +170,10 @@ def cscd(draw, spc5=False):
          "peripheral_device_type": draw(st.sampled_from([pdt, DEVDESC[pdt]])),
          pkey: {"code_set": cs, "association": draw(st.integers(0, 2)), "designator_type": dt, "designator": des}}
     if draw(st.booleans()):
+        # the optional key of the class's docstring example: the length of the designator that follows
+        from pbt.stdspec.responses import designator_body
+        d[pkey]["designator_length"] = len(designator_body(dt, des))
+    if draw(st.booleans()):
         d["relative_initiator_port_identifier"] = draw(fv(16))
     if draw(st.booleans()):
         d["lu_id_type"] = 0
